@@ -188,6 +188,10 @@ def run_case(case, ctx):
 		pos = fault['pos'] % n
 		paths[pos] = make_fault(ctx, fault['type'])
 	files = SequenceFile.from_paths(paths, 'fasta', 'auto')
+	if case.get('explicit_compression') and fault is None:
+		files = [SequenceFile(p_, 'fasta', 'gzip' if open(p_, 'rb').read(2) == b'\x1f\x8b' else None) for p_ in paths]
+	if case.get('files_as_tuple'):
+		files = tuple(files)
 	if case.get('poison'):
 		# an earlier call in the same process that failed part-way must leave no trace
 		pp = make_fault(ctx, 'truncated_gzip_hits')
@@ -340,6 +344,7 @@ def gen_case(draw, tier):
 		'listfile': draw(st.booleans()),
 		'progress': draw(st.sampled_from([None, None, 'click', False])),
 		'poison': draw(st.sampled_from([False, False, True])),
+		'explicit_compression': draw(st.booleans()), 'files_as_tuple': draw(st.booleans()),
 		'fault': fault,
 	}
 
